@@ -523,12 +523,17 @@ class NDNApp:
         del self._prefix_tree[name]
 
     def _on_nack(self, name: FormalName, nack_reason: int):
+        # Interests whose name ends with an implicit digest are filed under the name without it
+        implicit_sha256 = b''
+        if name and Component.get_type(name[-1]) == Component.TYPE_IMPLICIT_SHA256:
+            implicit_sha256 = Component.get_value(name[-1])
+            name = name[:-1]
         try:
             node = self._int_tree[name]
         except KeyError:
             node = None
         if node:
-            if node.nack_interest(nack_reason):
+            if node.nack_interest(nack_reason, implicit_sha256):
                 del self._int_tree[name]
 
     async def _on_data(self, name: FormalName, meta_info: MetaInfo,
